@@ -121,14 +121,21 @@ class SolverPool:
         b.close()
         return {"proc": p, "conn": a, "job": None, "deadline": None}
 
-    def run(self, jobs, progress=None):
-        """jobs: list of (text, timeout_s, backend, want_model). Returns list of result dicts in order."""
+    def run(self, jobs, progress=None, groups=None, final=None):
+        """jobs: list of (text, timeout_s, backend, want_model). Returns list of result dicts in order.
+
+        groups/final: portfolio mode - groups[i] is the group of job i; when final(i, result) is true the
+        group is decided: its unstarted jobs are skipped and its running jobs are killed."""
         results = [None] * len(jobs)
         nxt = 0
         inflight = 0
         total = len(jobs)
+        done_groups = set()
         while nxt < total or inflight:
             for w in self.workers:
+                while w["job"] is None and nxt < total and groups is not None and groups[nxt] in done_groups:
+                    results[nxt] = {"result": "skipped", "time": 0.0}
+                    nxt += 1
                 if w["job"] is None and nxt < total:
                     text, timeout_s, backend, want_model = jobs[nxt]
                     w["conn"].send((nxt, text, timeout_s, backend, want_model))
@@ -160,6 +167,16 @@ class SolverPool:
                     inflight -= 1
                     if progress:
                         progress(qid, res)
+                    if groups is not None and final is not None and final(qid, res):
+                        done_groups.add(groups[qid])
+                elif groups is not None and groups[w["job"]] in done_groups:
+                    qid = w["job"]
+                    w["proc"].kill()
+                    w["proc"].join()
+                    w["conn"].close()
+                    self.workers[i] = self._spawn()
+                    results[qid] = {"result": "skipped", "time": 0.0}
+                    inflight -= 1
                 elif now > w["deadline"]:
                     qid = w["job"]
                     w["proc"].kill()
